@@ -174,6 +174,7 @@ def fmtOp : P String := do
     | .ok s => "ok " ++ hexS s
     | .panic => "PANIC"
     | .unmodelled => "UNMODELLED"
+    | .fallback => "FALLBACK"
   pure (r ++ " " ++ confStr secs cellNumeric n ++ " " ++ exactStr secs value cellNumeric n ++ " T=" ++ b01 tOk ++ " A=" ++ b01 aOk)
 
 def step (w : List String) : String :=
